@@ -32,7 +32,7 @@ class C20(Check):
     tiers = {"quick": {"runs": 60000, "wall": 85}, "thorough": {"runs": 3000000, "wall": 1200}}
     expected_probes = ["w1:out-of-order-completion", "w1:declined-with-work-left", "w1:budget-exhausted",
                        "w1:error-with-jobs-in-flight", "w1:pauli-sum-collector", "w1:pauli-out-of-order-completion",
-                       "w3:JOB_ALREADY_EXISTS", "w3:PROGRAM_ALREADY_EXISTS", "w3:JOB_DOES_NOT_EXIST",
+                       "w3:JOB_ALREADY_EXISTS", "w3:JOB_ALREADY_EXISTS-on-create-both", "w3:PROGRAM_ALREADY_EXISTS", "w3:JOB_DOES_NOT_EXIST",
                        "w3:PROGRAM_DOES_NOT_EXIST", "w3:break-with-two-in-flight", "w3:T2-reader-death",
                        "w3:cancel-before-request-queued", "w3:cancel-with-request-out", "w3:cancel-rpc-sent",
                        "w3:reply-for-stale-request", "w3:submit-after-stop", "w3:stop-with-unsent-request", "w3:connect-stalled", "w3:result-after-retry",
